@@ -87,9 +87,17 @@ func fnExec(ctx *cmdContext, args map[string]any) (output respValue, err error) 
 	// process all of the queued commands, regardless if one errors
 	results := make([]any, 0, len(*ctx.cs.cmdQueue))
 	for _, cc := range *ctx.cs.cmdQueue {
-		// use the multi command id instead of each queued command's id,
-		// so that the commands won't try to acquire a lock that we already own
-		cc.dsc.id = ctx.dsc.id
+		if cc.dsc.ds != ctx.cs.ds {
+			// a SELECT executed earlier in this transaction changed the
+			// connection's database after this command was queued: it runs in
+			// the database selected now (taking that database's lock per command)
+			cc.dsc = ctx.cs.ds.newDataStoreCommand()
+		}
+		if cc.dsc.ds == ctx.dsc.ds {
+			// use the multi command id instead of each queued command's id,
+			// so that the commands won't try to acquire a lock that we already own
+			cc.dsc.id = ctx.dsc.id
+		}
 		results = append(results, ctx.cd.dispatchHandler(cc))
 	}
 
